@@ -73,6 +73,18 @@ class VDyn(VStr):
         self.isb = isb if not isinstance(isb, bool) else z3.BoolVal(isb)
 
 
+class ShapeUnknown(Exception):
+    """raised inside a contract clause when the value the (changed) code built has a shape the clause cannot read"""
+
+
+class Unk:
+    """A clause that cannot be stated because the pack does not recognise the shape of what the (changed) code built: neither
+    proved nor refuted -- the obligation is `unknown` (UNKNOWN-SHAPE) and the native replayer decides.  Assumed as True."""
+
+    def __init__(self, why):
+        self.why = str(why)[:200]
+
+
 class ConjA(Conj):
     """Labelled conjunction plus definitional instances that are only ever assumed (never proof goals)."""
 
@@ -81,7 +93,7 @@ class ConjA(Conj):
         self.defs = list(defs)
 
     def term(self):
-        return z3.And([t for _l, t in self] + self.defs + [z3.BoolVal(True)])
+        return z3.And([t for _l, t in self if not isinstance(t, Unk)] + self.defs + [z3.BoolVal(True)])
 
 
 def opt_parts(v):
@@ -431,7 +443,39 @@ class MailExecutor(UnitsExecutor):
     def add_vc(self, kind, label, pc, goal, note="", loc=""):
         if self._probing:
             return
+        if isinstance(goal, Conj):
+            for (sub, t) in goal:
+                self.add_vc(kind, f"{label}.{sub}" if label else sub, pc, t, note, loc)
+            return
+        if isinstance(goal, Unk):
+            note, goal = "UNKNOWN-SHAPE " + goal.why, z3.BoolVal(False)
         super().add_vc(kind, label, pc, goal, note, loc)
+
+    def _b(self, x):
+        if isinstance(x, Unk):
+            return z3.BoolVal(True)
+        return super()._b(x)
+
+    def apply_contract(self, st, c, args, kwargs, node):
+        # an Optional argument that the path condition shows to be present is handed over as the value itself
+        args = [self.unwrap(st, a) for a in args]
+        kwargs = {k: self.unwrap(st, v) for k, v in kwargs.items()}
+        try:
+            return super().apply_contract(st, c, args, kwargs, node)
+        except (AttributeError, TypeError, KeyError, IndexError, z3.Z3Exception) as e:
+            # a clause of the callee's contract is not applicable to the values the (changed) code passes: unrecognised shape
+            raise Unsupported(f"{self.loc(node)} contract of {c.target.split('::')[-1]} not applicable here: {type(e).__name__}: {e}"[:300])
+
+    def binop(self, st, op, a, b, node, inplace=False):
+        if isinstance(a, VOpt) or isinstance(b, VOpt):
+            for x in (a, b):
+                if isinstance(x, VOpt):
+                    st = self.fork_raise(st, x.none, "TypeError")
+                    if st is None:
+                        return []
+            a = a.val if isinstance(a, VOpt) else a
+            b = b.val if isinstance(b, VOpt) else b
+        return super().binop(st, op, a, b, node, inplace)
 
     def sub_executor(self, module):
         sub = super().sub_executor(module)
@@ -486,34 +530,65 @@ class MailExecutor(UnitsExecutor):
         return super().contains(st, container, item, node)
 
     def e_BoolOp(self, n, st):
-        # `opt or <literal>`: If(truthy(opt), opt, literal) without forking
-        if isinstance(n.op, ast.Or) and len(n.values) == 2 and isinstance(n.values[1], ast.Constant) \
-                and isinstance(n.values[1].value, (str, bytes)):
-            out = []
-            for (s, v) in self.ev(n.values[0], st):
-                lit = n.values[1].value
-                if isinstance(v, VOpt):
+        """`opt or <text>`: If(truthy(opt), opt, text) without forking when <text> is an effect-free str/bytes expression (a literal,
+        a module constant, ...); otherwise the generic evaluation, with Optional results unwrapped where the path shows them present."""
+        if isinstance(n.op, ast.Or) and len(n.values) == 2:
+            firsts = self.ev(n.values[0], st.fork())
+            if len(firsts) == 1 and isinstance(firsts[0][1], (VOpt, VStr)) and not (isinstance(firsts[0][1], VOpt) and not isinstance(firsts[0][1].val, VStr)):
+                (s, v) = self.ev(n.values[0], st)[0]
+                mark = len(self.sinks[-1])
+                s_rest = s.fork()
+                rest = self.ev(n.values[1], s_rest)
+                if len(rest) == 1 and len(self.sinks[-1]) == mark and self._same_effects(rest[0][0], s_rest, s) and isinstance(rest[0][1], (VStr, VBytes)):
+                    o = rest[0][1]
                     t = self.truth(s, v).t
-                    lt = z3.StringVal(lit if isinstance(lit, str) else lit.decode("latin-1"))
-                    term = z3.If(t, v.val.t, lt)
-                    if isinstance(v.val, VDyn) or isinstance(lit, bytes):
-                        isb = v.val.isb if isinstance(v.val, VDyn) else z3.BoolVal(False)
-                        out.append((s, VDyn(term, z3.If(t, isb, z3.BoolVal(isinstance(lit, bytes))))))
-                    else:
-                        out.append((s, VStr(term)))
-                elif isinstance(v, VStr) and isinstance(lit, str) and not isinstance(v, VDyn):
-                    out.append((s, VStr(z3.If(z3.Length(v.t) > 0, v.t, z3.StringVal(lit)))))
-                else:
-                    return super().e_BoolOp(n, st)
-            return out
-        return super().e_BoolOp(n, st)
+                    vt = v.val.t if isinstance(v, VOpt) else v.t
+                    inner = v.val if isinstance(v, VOpt) else v
+                    term = z3.If(t, vt, bytes_term(o))
+                    if isinstance(inner, VDyn) or isinstance(o, (VBytes, VDyn)):
+                        isb_v = inner.isb if isinstance(inner, VDyn) else z3.BoolVal(False)
+                        isb_o = o.isb if isinstance(o, VDyn) else z3.BoolVal(isinstance(o, VBytes))
+                        return [(s, VDyn(term, z3.If(t, isb_v, isb_o)))]
+                    return [(s, VStr(term))]
+                del self.sinks[-1][mark:]
+                return [(s2, self.unwrap(s2, r)) for (s2, r) in self._boolop_from(n, s, v)]
+        return [(s2, self.unwrap(s2, r)) for (s2, r) in super().e_BoolOp(n, st)]
+
+    def _boolop_from(self, n, s, v):
+        """generic `v or <second>` once the first operand has been evaluated to v in state s"""
+        t = self.truth(s, v)
+        c = t.const()
+        if c is True:
+            return [(s, v)]
+        if c is False:
+            return self.ev(n.values[1], s)
+        out = []
+        s_rest = s.fork().assume(z3.Not(t.t))
+        if self.feasible(s_rest.pc):
+            out.extend(self.ev(n.values[1], s_rest))
+        stay = s.assume(t.t)
+        if self.feasible(stay.pc):
+            out.append((stay, v))
+        return out
 
     def to_str(self, st, v, formatted=False):
         if isinstance(v, VOpt):
             if not isinstance(v.val, VStr):
+                if not self.abstract:
+                    st.assume(z3.Bool(f"__havoc__@str() of an optional {type(v.val).__name__}"))
                 return VStr(z3.String(fresh_name("str")))
             return VStr(z3.If(v.none, z3.StringVal("None"), v.val.t))
         return super().to_str(st, v, formatted)
+
+    def format_template(self, st, template, args, kwargs):
+        """str.format / %-formatting with an Optional text argument: rendered like an f-string renders it ('None' or the text)"""
+        conv = lambda v: self.to_str(st, v) if isinstance(v, VOpt) and isinstance(v.val, VStr) else v
+        return super().format_template(st, template, [conv(a) for a in args], {k: conv(v) for k, v in (kwargs or {}).items()})
+
+    def percent_template(self, st, template, arg):
+        conv = lambda v: self.to_str(st, v) if isinstance(v, VOpt) and isinstance(v.val, VStr) else v
+        arg = VTuple([conv(x) for x in arg.items]) if isinstance(arg, VTuple) else conv(arg)
+        return super().percent_template(st, template, arg)
 
     def b_isinstance(self, st, args, kwargs, node):
         v, t = args
